@@ -107,12 +107,12 @@ func abbrevParserInDomain(s string) bool {
 // ---------- case emission ----------
 
 type emitter struct {
-	w        *common.ShardWriter
-	next     uint64
-	cases    map[string]interface{}
-	hist     map[string]int
-	distinct map[string]struct{}
-	samples  []interface{}
+	w           *common.ShardWriter
+	next        uint64
+	cases       map[string]interface{}
+	hist        map[string]int
+	distinct    map[string]struct{}
+	samples     []interface{}
 	sampleKinds map[string]bool // op|stream combinations of which the first case is kept as a sample
 }
 
@@ -157,9 +157,60 @@ func shapeOf(s string) string {
 	return "input:ascii"
 }
 
+// ---- documented formats, written by hand (independent of the regexes in the source) ----
+
+func allDigits(s string, min int) bool {
+	if len(s) < min {
+		return false
+	}
+	for i := 0; i < len(s); i++ {
+		if s[i] < '0' || s[i] > '9' {
+			return false
+		}
+	}
+	return true
+}
+
+// <credit-type-abbrev><class-sequence>: 1-3 upper-case letters, then at least two digits
+func docClassID(s string) bool {
+	i := 0
+	for i < len(s) && s[i] >= 'A' && s[i] <= 'Z' {
+		i++
+	}
+	return i >= 1 && i <= 3 && allDigits(s[i:], 2)
+}
+
+// <class-id>-<project-sequence>: at least three digits
+func docProjectID(s string) bool {
+	k := strings.IndexByte(s, '-')
+	return k > 0 && docClassID(s[:k]) && allDigits(s[k+1:], 3)
+}
+
+// <project-id>-<YYYYMMDD>-<YYYYMMDD>-<batch-sequence>
+func docBatchDenom(s string) bool {
+	parts := strings.Split(s, "-")
+	if len(parts) != 5 {
+		return false
+	}
+	return docProjectID(parts[0]+"-"+parts[1]) && len(parts[2]) == 8 && allDigits(parts[2], 8) &&
+		len(parts[3]) == 8 && allDigits(parts[3], 8) && allDigits(parts[4], 3)
+}
+
+var docFormats = map[int]func(string) bool{0: validAbbrev, 1: docClassID, 2: docProjectID, 3: docBatchDenom}
+
+// validator verdicts that disagree with the documented format (filled by validate, reported by main)
+var docMismatches []common.MonitorViolation
+var docMismatchSeen = map[string]bool{}
+
 func (e *emitter) validate(v int, s, stream string) bool {
 	vd := validators[v]
 	ok := vd.fn(s)
+	if doc, has := docFormats[v]; has && !strings.ContainsAny(s, "\n") && doc(s) != ok && !docMismatchSeen[vd.name] {
+		docMismatchSeen[vd.name] = true
+		docMismatches = append(docMismatches, common.MonitorViolation{Property: "C14", Key: "validator-vs-documented-format:" + vd.name,
+			Desc:  fmt.Sprintf("%s(%q) = %v but the documented format says %v", vd.name, s, ok, doc(s)),
+			Input: map[string]interface{}{"op": vd.name, "input": q(s), "accepted": ok}})
+	}
 	res := "rejected"
 	if ok {
 		res = "accepted"
@@ -1105,7 +1156,7 @@ func main() {
 		Histogram:         e.hist,
 		Samples:           e.samples,
 		Shards:            e.w.Shards,
-		MonitorViolations: m.viol,
+		MonitorViolations: append(m.viol, docMismatches...),
 		Extra: map[string]interface{}{
 			"monitor_checks":     m.checks,
 			"monitor_class_ids":  len(m.classIDs),
